@@ -29,7 +29,7 @@ func init() {
 		ID:        "C18",
 		Level:     "exploration",
 		Technique: "property-based testing (rapid) of concurrent workloads: differential against the same calls run alone, on a worker built with the Go race detector; schedules perturbed from user level (yielding visitor, callbacks, loader)",
-		Rule: "workloads of N in {2, 8, 64} goroutines x a mix of Execute, ExecuteSafe and Parse calls on ONE environment (core or Twig) over generated templates - in the Twig environment mixing content types (.html, .js, .css, .txt, no extension), templates with and without blocks, includes, inheritance, macros - each call with its own context and writer; GOMAXPROCS in {1, 4, 16}; an extra NodeVisitor, the recording callbacks and the loader yield the processor at points chosen by rapid. " +
+		Rule: "workloads of N in {2, 8, 64} goroutines x a mix of Execute, ExecuteSafe and Parse calls on ONE environment (core or Twig) over generated templates - in the Twig environment mixing content types (.html, .js, .css, .txt, no extension), templates with and without blocks, includes, inheritance, macros - each call with its own context (in one workload in four: a nil context map for about half of the calls, on templates that assign at top level) and writer; GOMAXPROCS in {1, 4, 16}; an extra NodeVisitor, the recording callbacks and the loader yield the processor at points chosen by rapid. " +
 			"One workload in five is run as the serial schedule (the calls one after the other on the shared environment). Oracles: (1) every call's (output, error) equals that of the same call run alone on a fresh environment; (2) the worker is built with -race and halts on the first report - any data race is a violation. " +
 			"Non-trivial: the workload has >= 2 concurrent calls on templates that differ in content type or block structure; counted per distinct workload.",
 		Assumptions: []string{"this technique does not enumerate interleavings: a race on a path no generated workload executes stays invisible", "the race detector reports unordered conflicting accesses of the observed execution; it does not need the bad interleaving to manifest"},
@@ -114,16 +114,31 @@ func init() {
 			cs.Templates["failinclude.txt"] = "c{% include 'missing-template' %}"
 			cs.Templates["failparse.html"] = "d{% if p %}{{ p +"
 			entries = append(entries, "allops.html", "allops.html", "captures.html", "captures.html", "failmacro.html", "failfilter.js", "failinclude.txt", "failparse.html")
+			// templates that write the root scope: with a nil context map each
+			// call still has a scope of its own
+			cs.Templates["rootset_a.html"] = "{% set t = 'A' %}{% import 'rootlib.html' as la %}[{{ t }}{{ u }}{{ p }}]{{ la.m(1) }}"
+			cs.Templates["rootset_b.txt"] = "{% set u = 'B' %}{% set p = 'q' %}[{{ u }}{{ t }}]{% for i in 1..3 %}{% set t = i %}{% endfor %}{{ t }}"
+			cs.Templates["rootlib.html"] = "{% macro m(a) %}m{{ a }}{% endmacro %}"
+			entries = append(entries, "rootset_a.html", "rootset_b.txt")
 			cs.Templates["payload.js"] = "var x = '{{ p }}';"
 			cs.Templates["payload.html"] = "<b>{{ p }}</b>{% block a %}{{ p }}{% endblock %}"
 			cs.Templates["payload.txt"] = "{{ p }}"
 			entries = append(entries, "payload.js", "payload.html", "payload.txt")
 			sortStr(entries)
 			n := rapid.SampledFrom([]int{2, 8, 8, 64}).Draw(t, "N")
+			nilCtx := rapid.IntRange(0, 3).Draw(t, "nilctx") == 0
 			for i := 0; i < n; i++ {
-				cs.Calls = append(cs.Calls, sb.Call{Kind: rapid.SampledFrom([]string{"execute", "execute", "parse", "safe"}).Draw(t, "kind"),
+				call := sb.Call{Kind: rapid.SampledFrom([]string{"execute", "execute", "parse", "safe"}).Draw(t, "kind"),
 					Entry: rapid.SampledFrom(entries).Draw(t, "entry"),
-					Ctx:   map[string]sb.V{"p": {K: "str", S: "<'\"&" + fmt.Sprint(i)}, "x": {K: "num", N: float64(i)}, "sel": {K: "bool", B: true}}})
+					Ctx:   map[string]sb.V{"p": {K: "str", S: "<'\"&" + fmt.Sprint(i)}, "x": {K: "num", N: float64(i)}, "sel": {K: "bool", B: true}}}
+				// in some workloads many calls pass a nil context map
+				if nilCtx && rapid.Bool().Draw(t, "nil") {
+					call.Ctx = nil
+					if rapid.Bool().Draw(t, "rootset") {
+						call.Entry = rapid.SampledFrom([]string{"rootset_a.html", "rootset_b.txt"}).Draw(t, "rs")
+					}
+				}
+				cs.Calls = append(cs.Calls, call)
 			}
 			cs.Serial = rapid.IntRange(0, 4).Draw(t, "serial") == 0
 			if rapid.IntRange(0, 2).Draw(t, "fs") == 0 {
